@@ -78,6 +78,7 @@ type c17Write struct {
 	Org   [3]int `json:"o"`           // block coordinate of the first block
 	Ext   [3]int `json:"e"`           // extent in blocks (blocks kinds: span along X, 1 in Y and Z)
 	Child bool   `json:"c,omitempty"` // issued in a child version (root is committed first)
+	Sib   bool   `json:"s,omitempty"` // issued in a second child of the root, on a branch of its own (a sibling of the child version)
 	ROI   bool   `json:"r,omitempty"` // restricted with ?roi=r (raw kinds only)
 	Erase bool   `json:"z,omitempty"` // the payload is all background (what "unwritten" reads as): erases earlier content
 }
@@ -86,6 +87,9 @@ func (w c17Write) String() string {
 	s := fmt.Sprintf("%s@%v+%v", w.Kind, w.Org, w.Ext)
 	if w.Child {
 		s += "/child"
+	}
+	if w.Sib {
+		s += "/sibling"
 	}
 	if w.ROI {
 		s += "/roi"
@@ -470,14 +474,15 @@ type c17Live struct {
 	typ    c17TypeT
 	root   string
 	child  string
-	models [2]*c17Model // 0 root, 1 child
+	sib    string
+	models [3]*c17Model // 0 root, 1 child, 2 sibling of the child
 	last   string       // family of the last write
 	res    *c17Res
 	trace  string // file that receives the world and the request about to be executed (crash attribution)
 	failed bool   // a violation was reported for this world: later (probably consequential) checks are skipped
 	lastRq string
 	extBad bool      // an extents violation was reported for this world
-	prevEx [2]string // advertised extents last seen per version
+	prevEx [3]string // advertised extents last seen per version
 }
 
 // blockWriter names the family of the write whose voxels the model expects in block b.
@@ -522,6 +527,9 @@ func (l *c17Live) report(key, what string, stop bool) {
 		if l.child != "" && strings.Contains(l.lastRq, l.child) {
 			ver = 1
 		}
+		if l.sib != "" && strings.Contains(l.lastRq, l.sib) {
+			ver = 2
+		}
 		l.res.Viol = append(l.res.Viol, c17Viol{Key: key, What: what, World: l.spec, Req: l.lastRq, Ver: ver})
 	}
 }
@@ -539,6 +547,9 @@ func (l *c17Live) do(method, url string, body []byte) vsrv.Resp {
 func (l *c17Live) uuid(ver int) string {
 	if ver == 1 {
 		return l.child
+	}
+	if ver == 2 {
+		return l.sib
 	}
 	return l.root
 }
@@ -614,8 +625,27 @@ func c17ROISpans(blocks [][3]int) []byte {
 
 func (l *c17Live) write(wn int, w c17Write) error {
 	ver := 0
-	if w.Child {
+	if w.Sib {
+		ver = 2
+		if l.sib == "" {
+			if l.child == "" {
+				if err := vsrv.Commit(l.root); err != nil {
+					return err
+				}
+			}
+			sb, err := vsrv.Branch(l.root, "sib")
+			if err != nil {
+				return err
+			}
+			l.sib = sb
+			l.models[2] = l.models[0].clone()
+			l.prevEx[2] = l.prevEx[0]
+		}
+	} else if w.Child {
 		ver = 1
+		if l.sib != "" {
+			return fmt.Errorf("child write after a sibling write")
+		}
 		if l.child == "" {
 			if err := vsrv.Commit(l.root); err != nil {
 				return err
@@ -628,7 +658,7 @@ func (l *c17Live) write(wn int, w c17Write) error {
 			l.models[1] = l.models[0].clone()
 			l.prevEx[1] = l.prevEx[0]
 		}
-	} else if l.child != "" {
+	} else if l.child != "" || l.sib != "" {
 		return fmt.Errorf("root write after a child write")
 	}
 	m := l.models[ver]
@@ -1121,7 +1151,7 @@ func (l *c17Live) roiWriteCheck(ver int) bool {
 		return true
 	}
 	w := l.spec.Writes[n-1]
-	if (ver == 1) != w.Child {
+	if (ver == 1) != w.Child || w.Sib {
 		return true
 	}
 	m := l.models[ver]
@@ -1160,9 +1190,9 @@ func (l *c17Live) roiWriteCheck(ver int) bool {
 // whole-region 3-D reads, aligned and unaligned, then one slice per plane.
 func (l *c17Live) seqReads() {
 	bs := l.spec.BS
-	for ver := 0; ver < 2 && !l.failed; ver++ {
-		if ver == 1 && l.child == "" {
-			break
+	for ver := 0; ver < 3 && !l.failed; ver++ {
+		if l.uuid(ver) == "" {
+			continue
 		}
 		m := l.models[ver]
 		if !l.roiWriteCheck(ver) {
@@ -1419,7 +1449,7 @@ func (l *c17Live) geomReads(mode string, wide bool, part, of int) {
 // re-checked by rebuilding the world).
 func (l *c17Live) replay(req string, ver int) {
 	f := strings.Fields(req)
-	if len(f) != 2 || f[0] != "GET" || (ver == 1 && l.child == "") {
+	if len(f) != 2 || f[0] != "GET" || (ver >= 1 && l.uuid(ver) == "") {
 		return
 	}
 	u, q := f[1], ""
@@ -1660,6 +1690,17 @@ func runC17(c *vlib.Ctx) {
 					w2c.Child = true
 					ws = append(ws, c17World{Type: sc.typ, BS: sc.bs, Bg: sc.bg, Writes: []c17Write{w1, w2c}})
 					// the second write carries background only: it must erase what the first one stored
+					// the first write in the child, the second in a sibling of the child (a second open version that inherits nothing
+					// from the first write: what it advertises and returns must come from its own ancestry only)
+					w1c, w2s := w1, w2
+					w1c.Child, w2s.Sib = true, true
+					// the root holds one block of its own (so the sibling inherits content and advertised extents that do not
+					// cover its write); thorough also with an empty root
+					w0 := c17Write{Kind: "raw", Org: [3]int{0, 0, 0}, Ext: [3]int{1, 1, 1}}
+					ws = append(ws, c17World{Type: sc.typ, BS: sc.bs, Bg: sc.bg, Writes: []c17Write{w0, w1c, w2s}})
+					if thorough {
+						ws = append(ws, c17World{Type: sc.typ, BS: sc.bs, Bg: sc.bg, Writes: []c17Write{w1c, w2s}})
+					}
 					w2e, w2ce := w2, w2c
 					w2e.Erase, w2ce.Erase = true, true
 					ws = append(ws, c17World{Type: sc.typ, BS: sc.bs, Bg: sc.bg, Writes: []c17Write{w1, w2e}}, c17World{Type: sc.typ, BS: sc.bs, Bg: sc.bg, Writes: []c17Write{w1, w2ce}})
